@@ -619,9 +619,14 @@ func shortID(confID string, deviceID []byte) string {
 	// Hash
 	sum := xxhash.Sum64(buf)
 	// Base 32
-	strconv.AppendUint(buf[:0], sum, 32)
+	b := strconv.AppendUint(buf[:0], sum, 32)
+	// Pad: a sum below 32^4 has fewer than 5 digits; without padding the
+	// bytes of confID/deviceID left in buf would end up in the ID.
+	for len(b) < 5 {
+		b = append(b, '0')
+	}
 	// Trim 5
-	buf = buf[:5]
+	buf = b[:5]
 	// Uppercase
 	for i := range buf {
 		if buf[i] >= 'a' {
